@@ -23,6 +23,9 @@
 #ifndef T_END
 #define T_END ""
 #endif
+#ifndef PAD
+#define PAD 0	/* 0: the block is an exactly sized object; 4: block followed by CRLFCRLF inside the same object (server layout) */
+#endif
 
 struct in_s { uint8_t sym[NSYM + 1]; };
 #include "verif_in.h"
@@ -44,7 +47,7 @@ static int is_ws(uint8_t c) { return (c == ' ' || c == '\t' || c == '\r' || c ==
 
 void harness(void) {
 	V_BEGIN();
-	static uint8_t buf_store[TOTAL];	/* exactly sized object (static: CBMC constant-propagates through it, unlike malloc) */
+	static uint8_t buf_store[TOTAL + PAD];	/* exactly sized object (static: CBMC constant-propagates through it, unlike malloc) */
 	uint8_t *buf = buf_store;
 	static uint8_t look_store[LOOKLEN];
 	uint8_t *look = look_store;
@@ -69,6 +72,9 @@ void harness(void) {
 	FIELD(2, T_N3, T_V3);
 #endif
 	T_EMIT(buf, pos, T_END, IN.sym, si);
+#if PAD == 4	/* http_server.c layout: hdr_size stops before the CRLFCRLF that is physically present in the receive buffer */
+	buf[TOTAL] = '\r'; buf[TOTAL + 1] = '\n'; buf[TOTAL + 2] = '\r'; buf[TOTAL + 3] = '\n';
+#endif
 	V_ASSERT(pos == TOTAL && si == NSYM && lpos == LOOKLEN, "harness self-check: template sizes");
 
 	size_t nmatch = 0, first = NF, second = NF;
